@@ -138,7 +138,10 @@ func indexedSelectNonRowid(
 
 	var cbErr error
 	err = ind.Scan(func(r sdb.Record) bool {
-		setKey(r, cols, pk)
+		if !setKey(r, cols, pk) {
+			cbErr = sdb.ErrCorrupted
+			return true
+		}
 
 		var found sdb.Record
 		err := tab.ScanEq(pk, func(row sdb.Record) bool {
@@ -199,7 +202,10 @@ func indexedSelectEqNonRowid(
 	err = ind.ScanEq(
 		key,
 		func(r sdb.Record) bool {
-			setKey(r, cols, pk)
+			if !setKey(r, cols, pk) {
+				cbErr = sdb.ErrCorrupted
+				return true
+			}
 
 			var found sdb.Record
 			err := tab.ScanEq(pk, func(row sdb.Record) bool { found = row; return true })
@@ -223,9 +229,16 @@ func indexedSelectEqNonRowid(
 }
 
 // make a key from columns from the record
-// updates key
-func setKey(r sdb.Record, indexes []int, key sdb.Key) {
+// updates key. Returns false if the record doesn't have all the columns.
+func setKey(r sdb.Record, indexes []int, key sdb.Key) bool {
+	if len(indexes) > len(key) {
+		return false
+	}
 	for i, v := range indexes {
+		if v < 0 || v >= len(r) {
+			return false
+		}
 		key[i].V = r[v]
 	}
+	return true
 }
